@@ -12,7 +12,7 @@ export const SHAPES = ['none', 'identBound', 'identUnbound', 'call', 'arrow', 'f
 export const KINDS = ['vnode', 'string', 'array', 'slots', 'slotfn', 'number', 'nullish'];
 export const VSLOTS = ['absent', 'ident', 'objLit'];
 export const CONTEXTS = ['arrowExpr', 'moduleLevel', 'fnBody', 'nestedBlock', 'classMethod', 'arrowInArrow'];
-export const LOOP_CONTEXTS = ['forOfBlock', 'forOfNoBlock', 'mapArrowExpr', 'mapArrowAfterPending', 'whileBlock'];
+export const LOOP_CONTEXTS = ['forOfBlock', 'forOfNoBlock', 'mapArrowExpr', 'mapArrowAfterPending', 'whileBlock', 'forOfIfNoBlock', 'forOfIfElseNoBlock', 'forOfLabeledNoBlock', 'forInNoBlock', 'doWhileNoBlock', 'forClassicNoBlock', 'nestedForNoBlock', 'whileNoBlock', 'forOfTryNoBlock'];
 
 const KIND_SPEC = {
   vnode: { k: 'vnode', id: 'kidVNode' },
@@ -155,6 +155,15 @@ export function buildLoop(host, ctx, vs) {
     case 'forOfNoBlock': b.thunks.push(`export function t0() {\n  const out = [];\n  for (const it of [1, 2, 3]) out.push(${J});\n  return out;\n}`); break;
     case 'mapArrowExpr': b.thunks.push(`export const t0 = () => [1, 2, 3].map((it) => ${J});`); break;
     case 'mapArrowAfterPending': b.thunks.push(`export function t0() {\n  const header = <Hdr>{cf9()}</Hdr>;\n  const rows = [1, 2, 3].map((it) => ${J});\n  return rows;\n}`); break;
+    case 'forOfIfNoBlock': b.thunks.push(`export function t0() {\n  const out = [];\n  for (const it of [1, 2, 3]) if (it > 0) out.push(${J});\n  return out;\n}`); break;
+    case 'forOfIfElseNoBlock': b.thunks.push(`export function t0() {\n  const out = [];\n  for (const it of [1, 2, 3]) if (it < 0) out.push(null); else out.push(${J});\n  return out;\n}`); break;
+    case 'forOfLabeledNoBlock': b.thunks.push(`export function t0() {\n  const out = [];\n  for (const it of [1, 2, 3]) inner: out.push(${J});\n  return out;\n}`); break;
+    case 'forInNoBlock': b.thunks.push(`export function t0() {\n  const out = [];\n  for (const k in { a: 1, b: 2, c: 3 }) out.push(${J});\n  return out;\n}`); break;
+    case 'doWhileNoBlock': b.thunks.push(`export function t0() {\n  const out = [];\n  do out.push(${J}); while (out.length < 3);\n  return out;\n}`); break;
+    case 'forClassicNoBlock': b.thunks.push(`export function t0() {\n  const out = [];\n  for (let i = 0; i < 3; i++) out.push(${J});\n  return out;\n}`); break;
+    case 'nestedForNoBlock': b.thunks.push(`export function t0() {\n  const out = [];\n  for (const a of [1, 2, 3]) for (const b2 of [1]) out.push(${J});\n  return out;\n}`); break;
+    case 'whileNoBlock': b.thunks.push(`export function t0() {\n  const out = [];\n  while (out.length < 3) out.push(${J});\n  return out;\n}`); break;
+    case 'forOfTryNoBlock': b.thunks.push(`export function t0() {\n  const out = [];\n  for (const it of [1, 2, 3]) try { out.push(${J}); } catch (e) { out.push(null); }\n  return out;\n}`); break;
     case 'whileBlock': b.thunks.push(`export function t0() {\n  const out = []; let i = 0;\n  while (i++ < 3) { out.push(${J}); }\n  return out;\n}`); break;
     default: throw new Error(ctx);
   }
